@@ -122,8 +122,15 @@ def gen_strings(maxlen):
     return out
 
 
-def gen_guids():
+def gen_guids(full=False):
     out = []
+    # first groups that look like the start of another token: digit runs, digits+e+digits (DECIMAL), dates, durations ...
+    for tup in product("1eEa0" if full else "1e", repeat=8):
+        g = "".join(tup) + "-89ab-4cde-8f01-23456789abcd"
+        out.append(("GUID", g, ("GUID", g), uuid.UUID(g)))
+    for first in ("20200229", "2020e229", "00000e10", "1e5abcde", "12e45678", "0e000000", "9e9e9e9e", "deadbeef", "fa15e000", "a11ab1e5", "ddddddd1"):
+        g = first + "-1999-4123-8f01-23456789abcd"
+        out.append(("GUID", g, ("GUID", g), uuid.UUID(g)))
     for g in ("01234567-8901-2345-6789-012345678901", "abcdefab-cdef-abcd-efab-cdefabcdefab", "ABCDEFAB-CDEF-ABCD-EFAB-CDEFABCDEFAB",
               "a1B2c3D4-e5F6-a7B8-c9D0-e1F2a3B4c5D6", "00000000-0000-0000-0000-000000000000", "ffffffff-ffff-ffff-ffff-ffffffffffff"):
         out.append(("GUID", g, ("GUID", g), uuid.UUID(g)))
@@ -312,7 +319,7 @@ def run(ctx):
     full = not ctx.quick
     groups = [
         ("numbers", gen_numbers()), ("keywords", gen_keywords()), ("strings", gen_strings(3 if full else 2)),
-        ("guids", gen_guids()), ("dates", gen_dates()), ("times", gen_times()), ("datetimes", gen_datetimes(full)),
+        ("guids", gen_guids(full)), ("dates", gen_dates()), ("times", gen_times()), ("datetimes", gen_datetimes(full)),
         ("durations", gen_durations(full)), ("geography", gen_geo()), ("identifiers", gen_identifiers()),
     ]
     for name, items in groups:
